@@ -6,8 +6,9 @@ ASSUMPTIONS = ["the built binary (go build of /repo/main.go) is run in scratch d
                "expected matches come from the library through the harness (RunFiles in an identical scratch directory); file names are compared relative to the working directory",
                "-no-output suppresses the JSON files as well (main.go returns before writing them): treated as the documented meaning of 'do not output any results'"]
 
-FILES = {"a.txt": "banana band", "b.txt": "an apple\nand a nap", "c.log": "bandana"}
-PROGS = {"find": "find all 'an'", "replace": "replace all 'an' with '<' value '>'", "delete": "replace all 'an' with ''", "failing": "find all ("}
+# contents, names and replacements carry the bytes an output path could mangle: % (printf verbs), quotes, backslashes, <>&
+FILES = {"a.txt": "banana band 50%an% an\"q an\\y", "b.txt": "an apple\nand a nap %d an%s", "c.log": "bandana", "d%s 100%.txt": "an%v & <an>"}
+PROGS = {"find": "find all 'an' maybe in '%', '\"', '\\\\', '>'", "replace": "replace all 'an' with '<%' value '%d>'", "delete": "replace all 'an' with ''", "failing": "find all ("}
 FILESETS = {"one": "a.txt", "several": "*.txt", "glob": "*", "none": "*.nothing"}
 
 
